@@ -1911,8 +1911,20 @@ def p_instanceDeclaration(p):
                         cname),
                     parser_token=p)
             p.parser.mofcomp.compile_file(file_, ns)
-            cc = p.parser.handle.GetClass(cname, namespace=ns, LocalOnly=False,
-                                          IncludeQualifiers=True)
+            try:
+                cc = p.parser.handle.GetClass(
+                    cname, namespace=ns, LocalOnly=False,
+                    IncludeQualifiers=True)
+            except CIMError as ce2:
+                # e.g. the MOF file found does not define the class
+                raise MOFRepositoryError(
+                    msg=_format(
+                        "Cannot compile instance of {0!A} because the CIM "
+                        "repository returned an error for GetClass after "
+                        "compiling MOF file {1!A}",
+                        cname, file_),
+                    parser_token=p,
+                    cim_error=ce2)
         else:
             raise MOFRepositoryError(
                 msg=_format(
